@@ -198,21 +198,22 @@ Proof.
   induction l as [|x l IH]; intros k ix H; [contradiction|]. cbn [enumerate_from] in H. destruct H as [<-|H]; [left; reflexivity|right; exact (IH _ _ H)].
 Qed.
 
-Lemma sigof_clean sigs name d : forallb (fun x : string * (string * string) => clean (fst (snd x)) && clean (snd (snd x))) sigs = true -> clean (sigof sigs name d) = true.
+Lemma sigof_clean sigs name d : forallb (fun x : string * (string * string) => clean (sig_part d x)) sigs = true -> clean (sigof sigs name d) = true.
 Proof.
-  intros H. unfold sigof. induction sigs as [|[k p] sigs IH]; [reflexivity|]. cbn [forallb fst snd] in H. apply andb_prop in H as [Hp H].
-  apply andb_prop in Hp as [P1 P2]. cbn [lookup]. destruct (String.eqb name k); [destruct d; assumption|exact (IH H)].
+  intros H. unfold sigof. induction sigs as [|[k p] sigs IH]; [reflexivity|]. cbn [forallb] in H. apply andb_prop in H as [Hp H].
+  unfold sig_part in Hp. cbn [fst snd] in Hp. cbn [lookup]. destruct (String.eqb name k); [destruct d; exact Hp|exact (IH H)].
 Qed.
 
 Lemma ev_block_chunks sigs items body :
-  forallb clean items = true -> forallb (fun x : string * (string * string) => clean (fst (snd x)) && clean (snd (snd x))) sigs = true ->
+  forallb clean items = true -> body_sigs_clean sigs body = true ->
   forallb uline_clean body = true -> chunks_ok (ref_ev_block sigs items body).
 Proof.
   intros Hi Hs Hb. unfold ref_ev_block. apply chunks_ok_flat. intros ix Hix. pose proof (in_enumerate _ _ _ Hix) as Hn.
   rewrite forallb_forall in Hi. pose proof (Hi _ Hn) as Hc. intros s Hs'. apply in_map_iff in Hs' as (l & <- & Hl).
-  rewrite forallb_forall in Hb. pose proof (Hb _ Hl) as Hlc. unfold ref_ev_line. destruct (sig_kind l) as [d|].
+  rewrite forallb_forall in Hb. pose proof (Hb _ Hl) as Hlc. unfold body_sigs_clean in Hs. rewrite forallb_forall in Hs. pose proof (Hs _ Hl) as Hsl.
+  unfold ref_ev_line. destruct (sig_kind l) as [d|].
   - apply paren_clean_ok; apply line_clean_render; apply map_subst16_clean; try exact Hlc;
-      rewrite tb_clean_app, (elem_table_clean _ _ Hc); unfold tb_clean; cbn [forallb snd]; rewrite (sigof_clean sigs (snd ix) d Hs); reflexivity.
+      rewrite tb_clean_app, (elem_table_clean _ _ Hc); unfold tb_clean; cbn [forallb snd]; rewrite (sigof_clean sigs (snd ix) d Hsl); reflexivity.
   - apply line_clean_render. apply map_subst16_clean; [apply elem_table_clean; exact Hc|exact Hlc].
 Qed.
 
@@ -344,11 +345,11 @@ Proof.
 Qed.
 
 (* ---------------------------------------------------------------- the computed hypothesis follows from the names *)
-Theorem dyn_plain_of_names e t : dyn_ok07 t = true -> dyn_names_ok e = true -> dyn_lines_plain e t = true.
+Theorem dyn_plain_of_names e t : dyn_ok07 t = true -> dyn_names_ok e = true -> sigs_clean07 t (el_evsigs e) = true -> dyn_lines_plain e t = true.
 Proof.
-  intros Ht He. unfold dyn_names_ok in He. apply andb_prop in He as [He Hsig]. apply andb_prop in He as [He Hrows]. apply andb_prop in He as [He Htps].
+  intros Ht He Hsig. unfold dyn_names_ok in He. apply andb_prop in He as [He Hrows]. apply andb_prop in He as [He Htps].
   apply andb_prop in He as [He Hfirst]. apply andb_prop in He as [Hst Hev].
-  unfold dyn_lines_plain, dyn_ok07 in *. apply forallb_forall. intros it Hit. rewrite forallb_forall in Ht. specialize (Ht it Hit).
+  unfold dyn_lines_plain, dyn_ok07, sigs_clean07 in *. apply forallb_forall. intros it Hit. rewrite forallb_forall in Ht, Hsig. specialize (Ht it Hit). specialize (Hsig it Hit).
   destruct it as [l|s|k ib ie body|ib ie body|ib ie body|ib ie body|ib ie sfx body|il|ul|pre ee]; cbn [dyn_item dyn_item_clean] in *; try reflexivity;
     apply chunks_ok_plain; cbn [ref_item16].
   - apply trans_chunks; assumption.
